@@ -122,11 +122,37 @@ def replay(chk, behs, prelude, label, span=6, shards=4):
                           env={"GOGC": "300", "GOMAXPROCS": "2"})
 
 
+def pick(behs, limit, rng):
+    """Stratified selection: round-robin over the classes (last two steps) until `limit`."""
+    if limit is None or len(behs) <= limit:
+        return behs
+    classes = {}
+    for b in behs:
+        classes.setdefault(strat(b), []).append(b)
+    for k in classes:
+        rng.shuffle(classes[k])
+    keys = sorted(classes)
+    rng.shuffle(keys)
+    out = []
+    while len(out) < limit:
+        progressed = False
+        for k in keys:
+            if classes[k] and len(out) < limit:
+                out.append(classes[k].pop())
+                progressed = True
+        if not progressed:
+            break
+    out.sort(key=lambda b: json.dumps(b, sort_keys=True))
+    return out
+
+
 def _explore(chk, job, rng_seed):
     label, prelude, kinds, maxh, maxitems, rb, limit = job[:7]
     span = job[7] if len(job) > 7 else 6
     r = tlc_run(None, label, prelude, kinds, maxh, maxitems, rb, span=4, emit="Emit", workers=1)
-    behs, st = vf.behaviours(r, limit=limit, rng=random.Random(rng_seed), strat_key=strat, per_class=25)
+    behs, st = vf.behaviours(r, limit=None)
+    behs = pick(behs, limit, random.Random(rng_seed))
+    st["selected"] = len(behs)
     st.pop("classes", None)
     st["label"] = label
     recs = replay(chk, behs, prelude, label, span=span, shards=3)
@@ -153,8 +179,8 @@ def explore_all(chk, jobs, parallel=3):
 
 
 def simulate(chk, label, prelude, kinds, maxh, num, rng_seed, maxitems=2, rollbacks=2, span=6):
-    simlen = maxh + rollbacks + 2
-    r = tlc_run(chk, label, prelude, kinds, maxh, maxitems, rollbacks, span=span, emit="EmitLast", workers=1,
+    simlen = maxh
+    r = tlc_run(chk, label, prelude, kinds, maxh + 5, maxitems, rollbacks, span=span, emit="EmitLast", workers=1,
                 simulate="num=%d" % num, depth=simlen + 1, simlen=simlen, invariants=False, seed=rng_seed, timeout=1500)
     behs, st = vf.behaviours(r, limit=None)
     st.pop("classes", None)
